@@ -192,7 +192,7 @@ def canon(doc):
 
 # --------------------------------------------------------------------- S-CONST positions
 STRINGS = ["", "a", "\xe9", "\U0001F600", "\udc80", "a\ud800b", "\x00", "nan", "int", "frozenset", "string", "\\udc80", "'q'", "\udc80\U0001fae0\U0001fa70", "\ud83d\ude00", "x\ud83d\ude00\ud83d", "\udc80it's", "\udc80 'both' \"quotes\"", "\udc80\\'"]
-STRING_POSITIONS = ["name", "local", "param", "cell", "free", "co_name", "co_filename", "docstring", "class-name"]
+STRING_POSITIONS = ["name", "local", "param", "cell", "free", "co_name", "co_filename", "docstring", "class-name", "nested-filename"]
 
 
 def _code(src, path=()):
@@ -245,6 +245,12 @@ def code_with_string(s, position):
     if position == "co_filename":
         c = _code("x = 1\n")
         return ref.code_replace(c, co_filename=s)
+    if position == "nested-filename":
+        # the file name of a module and of the function nested in it
+        c = _code("def f():\n    return 1\n")
+        f = [k for k in c.co_consts if type(k) is type(c)][0]
+        f2 = ref.code_replace(f, co_filename=s)
+        return ref.code_replace(c, co_filename=s, co_consts=_swap(c.co_consts, f, f2))
     if position == "docstring":
         c = _code("def f():\n    'dd'\n    return 1\n", (0,))
         return ref.code_replace(c, co_consts=_swap(c.co_consts, "dd", s))
@@ -287,6 +293,10 @@ def handbuilt_with_string(s, position):
         kw["filename"] = s
     elif position == "docstring":
         kw["type"] = Function(Args(), docstring=s)
+    elif position == "nested-filename":
+        inner = CodeData(blocks=(tuple(ins),), filename=s, first_line_number=1, name="g", stacksize=1, type=Function(Args()))
+        kw["filename"] = s
+        ins = [Instruction("LOAD_CONST", Constant(inner), line_number=1), Instruction("RETURN_VALUE", line_number=1)]
     elif position == "class-name":
         ins.insert(0, Instruction("STORE_NAME", Name(s, 0), line_number=1))
     return CodeData(blocks=(tuple(ins),), **kw)
